@@ -10,6 +10,7 @@ import (
 
 	"capnproto.org/go/capnp/v3"
 	"capnproto.org/go/capnp/v3/internal/errors"
+	"capnproto.org/go/capnp/v3/internal/verifhook"
 )
 
 // A Method describes a single capability method on a server object.
@@ -199,6 +200,7 @@ func (srv *Server) Recv(ctx context.Context, r capnp.Recv) capnp.PipelineCaller 
 
 func (srv *Server) start(ctx context.Context, m *Method, r capnp.Recv) capnp.PipelineCaller {
 	// Acquire "starting" condition variable.
+	verifhook.Yield(200)
 	srv.mu.Lock()
 	for {
 		if srv.drain != nil {
@@ -211,6 +213,7 @@ func (srv *Server) start(ctx context.Context, m *Method, r capnp.Recv) capnp.Pip
 		}
 		wait := srv.starting
 		srv.mu.Unlock()
+		verifhook.Yield(201)
 		select {
 		case <-wait:
 		case <-ctx.Done():
@@ -228,6 +231,7 @@ func (srv *Server) start(ctx context.Context, m *Method, r capnp.Recv) capnp.Pip
 		full := make(chan struct{})
 		srv.full = full
 		srv.mu.Unlock()
+		verifhook.Yield(202)
 		select {
 		case <-full:
 		case <-ctx.Done():
@@ -255,6 +259,7 @@ func (srv *Server) start(ctx context.Context, m *Method, r capnp.Recv) capnp.Pip
 	ctx, cancel := context.WithCancel(ctx)
 	srv.ongoing[id] = cstate{cancel}
 	srv.mu.Unlock()
+	verifhook.Yield(203)
 
 	// Call implementation function.
 	call, ack := newCall(r.Args, r.Returner)
@@ -262,6 +267,7 @@ func (srv *Server) start(ctx context.Context, m *Method, r capnp.Recv) capnp.Pip
 	done := make(chan struct{})
 	go func() {
 		err := m.Impl(ctx, call)
+		verifhook.Yield(204)
 		r.ReleaseArgs()
 		if err == nil {
 			aq.fulfill(call.results)
@@ -270,6 +276,7 @@ func (srv *Server) start(ctx context.Context, m *Method, r capnp.Recv) capnp.Pip
 			aq.reject(err)
 			r.Returner.Return(err)
 		}
+		verifhook.Yield(205)
 		srv.mu.Lock()
 		srv.ongoing[id].cancel()
 		srv.ongoing[id] = cstate{}
@@ -281,6 +288,7 @@ func (srv *Server) start(ctx context.Context, m *Method, r capnp.Recv) capnp.Pip
 			srv.full = nil
 		}
 		srv.mu.Unlock()
+		verifhook.Yield(207)
 		close(done)
 	}()
 	var pcall capnp.PipelineCaller
@@ -291,6 +299,7 @@ func (srv *Server) start(ctx context.Context, m *Method, r capnp.Recv) capnp.Pip
 		// Implementation functions may not call Ack, which is fine for
 		// smaller functions.
 	}
+	verifhook.Yield(206)
 	srv.mu.Lock()
 	srv.starting = nil
 	close(starting)
@@ -330,6 +339,7 @@ func (srv *Server) Brand() capnp.Brand {
 // Shutdowner passed into NewServer.  Shutdown must not be called more
 // than once.
 func (srv *Server) Shutdown() {
+	verifhook.Yield(210)
 	srv.mu.Lock()
 	if srv.drain != nil {
 		srv.mu.Unlock()
@@ -343,6 +353,7 @@ func (srv *Server) Shutdown() {
 			}
 		}
 		srv.mu.Unlock()
+		verifhook.Yield(211)
 		<-srv.drain
 	} else {
 		close(srv.drain)
